@@ -265,6 +265,7 @@ Proof. split; vm_compute; reflexivity. Qed.
     Spec/Counts.v), the reversed triple gives an outgoing link WITH it
     ([C14_keys_inverse_bnode_refuted], [C14_cnt_inverse_bnode_refuted]). *)
 From Shexer Require Import Spec.Counts Proofs.EndToEnd3.
+From Shexer Require Model.RunCur Proofs.OrderIrrelevant.
 
 Theorem C14_reverse_nonliteral_unfold : forall tau g,
   reverse_nonliteral tau g =
@@ -453,9 +454,13 @@ Theorem C14_track_reverse : forall tau m cap g,
 Proof. exact track_reverse. Qed.
 Print Assumptions C14_track_reverse.
 
+(** [Run2.run_shapes2] has the shexing stage in the order the code has
+    ([Model.RunCur.run_shapes_cur] is [Run.run_shapes] with that stage; the two
+    coincide without remove_empty_shapes and wherever Props/ShexStage.v:
+    [E2E_class_mode_order_irrelevant] applies) *)
 Theorem C14_run_shapes2_reverse : forall fa c (thr : F fa) g,
   Run2.run_shapes2 fa c thr g (reverse_nonliteral (r_tau c) g) =
-  run_shapes fa c thr (reverse_nonliteral (r_tau c) g).
+  RunCur.run_shapes_cur fa c thr (reverse_nonliteral (r_tau c) g).
 Proof. exact run_shapes2_reverse. Qed.
 
 (** (A4) statement level, remove_empty_shapes off, [iri_nodes]: when the run
@@ -478,6 +483,10 @@ Theorem C14_inverse_is_reverse_statements : forall c thr g ns st ns' sr,
 Proof.
   intros c thr g ns st ns' sr Hre Hg Ht Hr.
   change (r_tau c) with (r_tau (rwith_inverse false c)) in Hr at 1. rewrite run_shapes2_reverse in Hr.
+  rewrite (OrderIrrelevant.run_shapes_cur_eq_keep BAlg (rwith_inverse false c) thr _ Hre) in Hr.
+  change (Run2.run_shapes2 BAlg (rwith_inverse true c) thr g g)
+    with (RunCur.run_shapes_cur BAlg (rwith_inverse true c) thr g) in Ht.
+  rewrite (OrderIrrelevant.run_shapes_cur_eq_keep BAlg (rwith_inverse true c) thr g Hre) in Ht.
   exact (run_inverse_is_reverse BAlg c thr g ns st ns' sr order_at_BAlg Hre Hg Ht Hr).
 Qed.
 Print Assumptions C14_inverse_is_reverse_statements.
